@@ -68,6 +68,17 @@ def fin_tamper(ctx, thorough):
             for msg in (th, bytes(L.Nh), b"", st[:L.Nh], st[2 * L.Nh:]):
                 out.append(_hmac.new(key, msg, hname).digest())
         out.append(_hl.new(hname, th).digest())
+        # ... and under MAC keys a key schedule run on a constant secret would give: Expand-Label(secret, label, "", Nh)
+        # for secret in {0^Nh, ff^Nh} and every label of the schedule (RFC 9807 CustomLabel framing)
+        def expand_label(secret, label):
+            full = b"OPAQUE-" + label
+            info = L.Nh.to_bytes(2, "big") + bytes([len(full)]) + full + b"\x00"
+            return _hmac.new(secret, info + b"\x01", hname).digest()[:L.Nh]
+        for secret in (bytes(L.Nh), b"\xff" * L.Nh):
+            for label in (b"ClientMAC", b"ServerMAC", b"HandshakeSecret", b"SessionKey"):
+                k1 = expand_label(secret, label)
+                out.append(_hmac.new(k1, th, hname).digest())
+                out.append(_hmac.new(expand_label(k1, b"ClientMAC"), th, hname).digest())
         return out
     for st, nm, others in ((st_a, "session A", [ke3_b]), (st_b, "session B", [ke3_a]),
                            (st_fake, "fake-record session", [ke3_a, ke3_b]), (st_wrong, "wrong-password session", [ke3_a, ke3_b])):
@@ -85,5 +96,5 @@ def fin_tamper(ctx, thorough):
 
 
 def cases(tier, seed):
-    return [dict(script=fin_tamper, suite=s, seed=seed * 1000 + i, mode="pattern+err", params=dict(thorough=tier == "thorough"))
+    return [dict(cross=["login_finish", "srv_login_finish"], cross_limit=12, script=fin_tamper, suite=s, seed=seed * 1000 + i, mode="pattern+err", params=dict(thorough=tier == "thorough"))
             for i, s in enumerate(suites_for(tier, seed))]
